@@ -5,6 +5,8 @@
 package common
 
 //@ property C14 min-obligations 8
+//@ property C06 min-obligations 900
+//@ property C13 min-obligations 900
 
 // The header generator's closure: one atomic fetch-and-add on the process-wide counter per header. With the
 // assumed contract of sync/atomic.AddUint32 (linearizable: returns the value it stored) the k-th draw in the
@@ -15,3 +17,33 @@ package common
 //@   ensures messageXid == old(messageXid) + 1
 //@   ensures h.Xid == messageXid
 //@   ensures h.Version == uint8(ver) && h.Type == 0 && h.Length == 8
+
+// ---------------------------------------------------------------------------------------------
+// Encoder side (C01 C02 C06 C13): size/wf specs; Len/MarshalBinary inherit the util.Message contract.
+
+//@ spec size(h *Header) = 8
+//@ spec wf(h *Header) = true
+
+//@ spec size(h *HelloElemHeader) = 4
+//@ spec wf(h *HelloElemHeader) = true
+
+//@ spec size(h *HelloElemVersionBitmap) = 4 + 4*len(h.Bitmaps)
+//@ spec wf(h *HelloElemVersionBitmap) = true
+
+//@ func (*HelloElemVersionBitmap).MarshalBinary(h) (data, err)
+//@   loop 1:
+//@     invariant next == 4 + 4*#k
+
+//@ spec size(h *Hello) = 8 + sum(h.Elements)
+//@ spec wf(h *Hello) = allwf(h.Elements)
+
+//@ func (*Hello).Len(h) (n)
+//@   loop 1:
+//@     invariant n == uint16(8 + sum(h.Elements, #k))
+
+//@ func (*Hello).MarshalBinary(h) (data, err)
+//@   ensures[C13 C01] h.Header.Length == uint16(size(h))
+//@   flag notrunc
+//@   modifies h.Header.Length
+//@   loop 1:
+//@     invariant err == nil && next == 8 + sum(h.Elements, #k)
